@@ -57,7 +57,41 @@ def install():
     want = os.path.join(_snapdir, 'hotxlfp')
     if os.path.realpath(got) != os.path.realpath(want):
         raise SystemExit('hxverif: imported hotxlfp from %s, expected snapshot %s' % (got, want))
+    _warm_up()
     return _snapdir
+
+
+REGENERATED = False
+
+
+def _warm_up():
+    """Build one Parser in the parent before any worker is forked.  If the grammar differs from the
+    shipped LALR table PLY regenerates the table and writes it next to the grammar - i.e. into the
+    snapshot, once, here - instead of 16 workers racing to write it.  PLY's warnings are captured."""
+    global REGENERATED
+    import importlib
+    import io
+    old = sys.stderr
+    buf = io.StringIO()
+    sys.stderr = buf
+    try:
+        import hotxlfp
+        try:
+            hotxlfp.Parser()
+        except Exception:
+            return          # a tree that cannot even build a parser is reported by the checks themselves
+        if buf.getvalue().strip():
+            REGENERATED = True
+            for name in list(sys.modules):
+                if name.endswith('_parsetab'):
+                    del sys.modules[name]
+            importlib.invalidate_caches()
+            try:
+                hotxlfp.Parser()
+            except Exception:
+                pass
+    finally:
+        sys.stderr = old
 
 
 def pkg_file(rel):
